@@ -38,20 +38,20 @@ def run(prog: Program, rep: Report):
     fm = prog.cls("FunctorMap", POOLS_MOD)
     fr = prog.cls("FunRunner", WORKERS_MOD)
     mp = prog.func("mul_p_map", MAPS_MOD)
-    r1_tags(prog, rep, fw, fr)
-    r2_accounting(prog, rep, fm, mp)
-    r3_owed(prog, rep, fm, mp)
-    r4_sorted(prog, rep, mp)
-    r5_shutdown(prog, rep, fm, mp)
+    rep.attempt(lambda: r1_tags(prog, rep, fw, fr))
+    rep.attempt(lambda: r2_accounting(prog, rep, fm, mp))
+    rep.attempt(lambda: r3_owed(prog, rep, fm, mp))
+    rep.attempt(lambda: r4_sorted(prog, rep, mp))
+    rep.attempt(lambda: r5_shutdown(prog, rep, fm, mp))
     rep.rule("C05.R6", "chunking idiom instance of FunctorMap.__call__ (C01.R8)", floor=1)
     from .poolfam import chunk_generators
     from .c01 import _data_param
     gens = chunk_generators(prog, fm, prog.method(fm, "__call__"))
     if gens:
         chunking_idiom(prog, rep, "C05.R6", gens[0], "chunking", data_expr=_data_param(gens[0]))
-    r7_input(prog, rep, fm, mp)
+    rep.attempt(lambda: r7_input(prog, rep, fm, mp))
     from .ownership import rule_no_class_state
-    rule_no_class_state(prog, rep, "C05.R8", [fm, fw, fr])
+    rep.attempt(lambda: rule_no_class_state(prog, rep, "C05.R8", [fm, fw, fr]))
 
 
 def r1_tags(prog, rep: Report, fw: Cls, fr: Cls):
@@ -402,6 +402,26 @@ def r5_shutdown(prog, rep: Report, fm: Cls, mp: Func):
     rep.check("C05.R5", mp, "sentinels", sent_i is not None and sent_ok and (last_put_i is None or last_put_i < sent_i),
               "one None per worker, after the last work put", "mul_p_map does not send one None per worker after the last work item",
               scenario="a sentinel overtakes work: a worker stops while items are still queued and nobody processes them")
+    # the sentinel count is the number of workers *started*: `range(workers)` sentinels need `workers` processes started
+    # unconditionally; a start that sits under a test (workers started on demand) starts fewer, and the surplus None stays in the
+    # class-level work queue for the next call's workers to swallow
+    if sent_i is not None and isinstance(body[sent_i], ast.For) and src(body[sent_i].iter) == f"range({workers})":
+        cond_starts = []
+        for st in body:
+            for c in ast.walk(st):
+                if isinstance(c, ast.Call) and isinstance(c.func, ast.Attribute) and c.func.attr == "start" and not c.args:
+                    anc = getattr(c, "_parent", None)
+                    while anc is not None and anc is not mp.node:
+                        if isinstance(anc, (ast.If, ast.While, ast.Try)):
+                            cond_starts.append((c, anc))
+                            break
+                        anc = getattr(anc, "_parent", None)
+        rep.check("C05.R5", mp, "sentinels:started", not cond_starts, f"{workers} workers are started unconditionally, {workers} sentinels sent",
+                  (f"`{src(cond_starts[0][0])}` runs under `{src(cond_starts[0][1]).splitlines()[0][:60]}`: fewer than `{workers}` workers may be "
+                   f"started, but range({workers}) sentinels are sent: the surplus None stays in the shared work queue") if cond_starts else "",
+                  scenario="mul_p_map(f, [7], 3) leaves two None in FunRunner.WORK_QUEUE; the workers of the next call take them and "
+                           "exit, and that call waits for results forever",
+                  line=cond_starts[0][0].lineno if cond_starts else None)
     drain_i = None
     for i, st in enumerate(body):
         if isinstance(st, ast.While) and any(isinstance(c, ast.Call) and queue_call(c) and queue_call(c) == ("get", "blocking")
